@@ -7,6 +7,8 @@ import RuxModel.Tie.Tactic
   {…} }() }`) appears as: run the body; when it ended with a panic and the hook is set, store the value, run the
   hook, commit.
 -/
+set_option linter.unusedSimpArgs false
+set_option linter.unusedVariables false
 namespace Rux
 namespace Tie
 open GoRt
@@ -18,25 +20,83 @@ def keyRoutePath : Bytes := [0x5F, 0x63, 0x75, 0x72, 0x72, 0x65, 0x6E, 0x74, 0x5
 def keyAllowed : Bytes := [0x5F, 0x61, 0x6C, 0x6C, 0x6F, 0x77, 0x65, 0x64, 0x4D, 0x65, 0x74, 0x68, 0x6F, 0x64, 0x73]
 def keyRecover : Bytes := [0x5F, 0x72, 0x65, 0x63, 0x6F, 0x76, 0x65, 0x72, 0x52, 0x65, 0x73, 0x75, 0x6C, 0x74]
 
-/-- the handler chain of a request: global middleware, then the route's middleware and its main handler, or the
-    NotAllowed handlers (default when none are set) when other methods match, or the NotFound handlers -/
-def chainFor (env : HEnv σ ρ η (Gen.Ctx γ)) (s : σ) (route : Option ρ) (allowed : List Bytes) : List η :=
-  env.globalHandlers s ++
-    (if route.isSome then env.routeHandlers route ++ (env.routeHandler route).toList
-     else if decide ((allowed.length : Int) > 0) then
-       (if ((env.noAllowed s).length : Int) == 0 then env.default405 else env.noAllowed s)
-     else (if ((env.noRoute s).length : Int) == 0 then env.default404 else env.noRoute s))
+def orDefault (hs dflt : List η) : List η := if ((hs.length : Int) == 0) then dflt else hs
 
-/-- what `handleHTTPRequest` stores in the context before the chain runs -/
-def preludeCtx (env : HEnv σ ρ η (Gen.Ctx γ)) (ctx : Gen.Ctx γ) (path : Bytes) (route : Option ρ)
-    (params : Option KV) (allowed : List Bytes) : Gen.Ctx γ :=
+/-- what the `if route != nil {…} else if len(allowed) > 0 {…} else {…}` statement computes: the context with the
+    prelude values, the main handler, the handlers in front of it -/
+def choose (env : HEnv σ ρ η (Gen.Ctx γ)) (s : σ) (ctx : Gen.Ctx γ) (path : Bytes) (route : Option ρ)
+    (params : Option KV) (allowed : List Bytes) : Gen.Ctx γ × Option η × List η :=
   if route.isSome then
-    { ctx with params := params,
-               data := dataSet (dataSet ctx.data keyRouteName (.str (env.routeName route))) keyRoutePath (.str path) }
-  else if decide ((allowed.length : Int) > 0) then { ctx with data := dataSet ctx.data keyAllowed (.strs allowed) }
-  else ctx
+    ({ ctx with params := params, data := dataSet (dataSet ctx.data keyRouteName (.str (env.routeName route))) keyRoutePath (.str path) },
+      env.routeHandler route, env.routeHandlers route)
+  else if decide ((allowed.length : Int) > 0) then
+    ({ ctx with data := dataSet ctx.data keyAllowed (.strs allowed) }, none, orDefault (env.noAllowed s) env.default405)
+  else (ctx, none, orDefault (env.noRoute s) env.default404)
 
-def commit (c : Gen.Ctx γ) : Gen.Ctx γ := { c with writer := Gen.RW.ensureWriteHeader c.writer }
+theorem blk1_eq (r : Gen.Router) (ctx : Gen.Ctx γ) (env : HEnv σ ρ η (Gen.Ctx γ)) (s0 s : σ) (hc : List η) (path : Bytes) :
+    Gen.Router.handleHTTPRequest.blk1 r ctx env s0 s hc path
+      = if r.useEncodedPath then env.escapedPath ctx.req else path := by
+  unfold Gen.Router.handleHTTPRequest.blk1
+  simp only [Id.run, pure]
+  try (split <;> rfl)
+
+theorem blk11_eq (r : Gen.Router) (ctx : Gen.Ctx γ) (env : HEnv σ ρ η (Gen.Ctx γ)) (s0 s : σ) (hc : List η) (path : Bytes)
+    (route : Option ρ) (params : Option KV) (allowed : List Bytes) (mh : Option η) (hs : List η) :
+    Gen.Router.handleHTTPRequest.blk11 r ctx env s0 s hc path route params allowed mh hs = orDefault hs env.default405 := by
+  unfold Gen.Router.handleHTTPRequest.blk11 orDefault
+  simp only [Id.run, pure]
+  try (split <;> rfl)
+
+theorem blk12_eq (r : Gen.Router) (ctx : Gen.Ctx γ) (env : HEnv σ ρ η (Gen.Ctx γ)) (s0 s : σ) (hc : List η) (path : Bytes)
+    (route : Option ρ) (params : Option KV) (allowed : List Bytes) (mh : Option η) (hs : List η) :
+    Gen.Router.handleHTTPRequest.blk12 r ctx env s0 s hc path route params allowed mh hs = orDefault hs env.default404 := by
+  unfold Gen.Router.handleHTTPRequest.blk12 orDefault
+  simp only [Id.run, pure]
+  try (split <;> rfl)
+
+theorem blk13_eq (r : Gen.Router) (ctx : Gen.Ctx γ) (env : HEnv σ ρ η (Gen.Ctx γ)) (s0 s : σ) (hc : List η) (path : Bytes)
+    (route : Option ρ) (params : Option KV) (allowed : List Bytes) (mh : Option η) (hs chain : List η) :
+    Gen.Router.handleHTTPRequest.blk13 r ctx env s0 s hc path route params allowed mh hs chain
+      = chain ++ mh.toList := by
+  unfold Gen.Router.handleHTTPRequest.blk13
+  simp only [Id.run, pure]
+  cases mh <;> simp
+
+theorem blk9_eq (r : Gen.Router) (ctx : Gen.Ctx γ) (env : HEnv σ ρ η (Gen.Ctx γ)) (s0 s : σ) (hc : List η) (path : Bytes)
+    (route : Option ρ) (params : Option KV) (allowed : List Bytes) (mh : Option η) (hs : List η) :
+    Gen.Router.handleHTTPRequest.blk9 r ctx env s0 s hc path route params allowed mh hs
+      = if decide ((allowed.length : Int) > 0) then
+          ({ ctx with data := dataSet ctx.data keyAllowed (.strs allowed) }, orDefault (env.noAllowed s) env.default405)
+        else (ctx, orDefault (env.noRoute s) env.default404) := by
+  unfold Gen.Router.handleHTTPRequest.blk9
+  simp only [Id.run, pure, blk11_eq, blk12_eq, Gen.Ctx.set_data]
+  try (split <;> rfl)
+
+theorem blk6_eq (r : Gen.Router) (ctx : Gen.Ctx γ) (env : HEnv σ ρ η (Gen.Ctx γ)) (s0 s : σ) (hc : List η) (path : Bytes)
+    (route : Option ρ) (params : Option KV) (allowed : List Bytes) (hs : List η) :
+    Gen.Router.handleHTTPRequest.blk6 r ctx env s0 s hc path route params allowed none hs
+      = choose env s ctx path route params allowed := by
+  unfold Gen.Router.handleHTTPRequest.blk6 choose
+  simp only [Id.run, pure, blk9_eq, Gen.Ctx.set_data, Gen.Ctx.set_params]
+  split
+  · rfl
+  · split <;> rfl
+
+
+def commit (c : Gen.Ctx γ) : Gen.Ctx γ := c.set_writer (Gen.RW.ensureWriteHeader c.writer)
+
+/-- what follows the chain run `n`: a panic of the chain ends the body there; otherwise OnError runs when it is set and
+    the chain left errors in the context; then the commit -/
+def afterChain (env : HEnv σ ρ η (Gen.Ctx γ)) (n : σ × Gen.Ctx γ × Option Panic) : σ × Gen.Ctx γ × Option Panic :=
+  match n.2.2 with
+  | some p => (n.1, n.2.1, some p)
+  | none =>
+    if ((env.onErrorH n.1).isSome && decide ((n.2.1.errors.length : Int) > 0)) = true then
+      let e := env.onError n.1 n.2.1
+      match e.2.2 with
+      | some p => (e.1, e.2.1, some p)
+      | none => (e.1, commit e.2.1, none)
+    else (n.1, commit n.2.1, none)
 
 /-- the part of `handleHTTPRequest` below the `defer` -/
 def bodySpec (env : HEnv σ ρ η (Gen.Ctx γ)) (g : Gen.Router) (ctx : Gen.Ctx γ) (s : σ) : σ × Gen.Ctx γ × Option Panic :=
@@ -45,18 +105,9 @@ def bodySpec (env : HEnv σ ρ η (Gen.Ctx γ)) (g : Gen.Router) (ctx : Gen.Ctx 
   match q.2.2.2.2 with
   | some p => (q.1, ctx, some p)
   | none =>
-    let chain := chainFor env q.1 q.2.1 q.2.2.2.1
-    let c1 := { preludeCtx env ctx path q.2.1 q.2.2.1 q.2.2.2.1 with handlers := chain.map (fun _ => ()) }
-    let n := env.next q.1 c1 chain
-    match n.2.2 with
-    | some p => (n.1, n.2.1, some p)
-    | none =>
-      if ((env.onErrorH n.1).isSome && decide ((n.2.1.errors.length : Int) > 0)) = true then
-        let e := env.onError n.1 n.2.1
-        match e.2.2 with
-        | some p => (e.1, e.2.1, some p)
-        | none => (e.1, commit e.2.1, none)
-      else (n.1, commit n.2.1, none)
+    let ch := choose env q.1 ctx path q.2.1 q.2.2.1 q.2.2.2.1
+    let chain := env.globalHandlers q.1 ++ ch.2.2 ++ ch.2.1.toList
+    afterChain env (env.next q.1 (ch.1.set_handlers (chain.map (fun _ => ()))) chain)
 
 /-- `handleHTTPRequest` -/
 def handleSpec (env : HEnv σ ρ η (Gen.Ctx γ)) (g : Gen.Router) (ctx : Gen.Ctx γ) (s : σ) : σ × Gen.Ctx γ × Option Panic :=
@@ -64,20 +115,66 @@ def handleSpec (env : HEnv σ ρ η (Gen.Ctx γ)) (g : Gen.Router) (ctx : Gen.Ct
   if (env.onPanicH s).isSome = true then
     match b.2.2 with
     | some ret =>
-      let h := env.onPanic b.1 { b.2.1 with data := dataSet b.2.1.data keyRecover (.pv ret) }
+      let h := env.onPanic b.1 (b.2.1.set_data (dataSet b.2.1.data keyRecover (.pv ret)))
       match h.2.2 with
       | some p => (h.1, h.2.1, some p)
       | none => (h.1, commit h.2.1, none)
     | none => b
   else b
 
-/-
-  OPEN: `Gen.Router.handleHTTPRequest g ctx env s = handleSpec env g ctx s`.
-  The statement is true by inspection of the two definitions, but the obvious proof (unfold, zeta-reduce, case
-  analysis) does not terminate in reasonable time: after zeta-reduction every structure update on the context copies
-  the preceding tuple-valued block into each field.  Until a let-preserving proof is written the generated
-  definition is tied by the snapshot theorem of Tie/Golden.lean only.
--/
+/-- The definition generated from dispatch.go `handleHTTPRequest` IS the closed form, whatever the environment does.
+    (Proof: the blocks one at a time — the translator emits every tuple-valued `if` of this function as its own
+    definition —, then the three modelled calls are named and the panic / hook cases enumerated.) -/
+theorem gen_handle_eq_spec (env : HEnv σ ρ η (Gen.Ctx γ)) (g : Gen.Router) (ctx : Gen.Ctx γ) (s : σ) :
+    Gen.Router.handleHTTPRequest g ctx env s = handleSpec env g ctx s := by
+  unfold Gen.Router.handleHTTPRequest handleSpec bodySpec afterChain
+  simp only [Id.run, pure, blk1_eq, blk13_eq]
+  generalize (if g.useEncodedPath = true then env.escapedPath ctx.req else env.urlPath ctx.req) = P
+  generalize env.quickMatch s (env.method ctx.req) P = q
+  obtain ⟨s1, route, params, allowed, pn⟩ := q
+  have hd : (default : Option η) = none := rfl
+  simp only [hd, blk6_eq]
+  generalize choose env s1 ctx P route params allowed = ch
+  obtain ⟨c1, mh, hs⟩ := ch
+  simp only [List.nil_append]
+  cases pn
+  · simp only []
+    obtain ⟨s2, c2, pn2, hn⟩ : ∃ s2 c2 pn2, env.next s1 (c1.set_handlers (List.map (fun _ => ()) (env.globalHandlers s1 ++ hs ++ mh.toList))) (env.globalHandlers s1 ++ hs ++ mh.toList) = (s2, c2, pn2) := ⟨_, _, _, rfl⟩
+    simp only [hn]
+    obtain ⟨s3, c3, pn3, he⟩ : ∃ s3 c3 pn3, env.onError s2 c2 = (s3, c3, pn3) := ⟨_, _, _, rfl⟩
+    simp only [he]
+    cases pn2 <;> cases pn3 <;> cases env.onPanicH s <;> cases env.onErrorH s2 <;>
+      by_cases hel : (c2.errors.length : Int) > 0 <;> simp [commit, keyRecover, ToDV.toDV, hel] <;> (repeat' split) <;> simp_all
+  · cases env.onPanicH s <;> simp [commit, keyRecover, ToDV.toDV] <;> tie_cases
+
+/-! ### the closed form, read by kind of match result -/
+
+/-- the handler chain of a request: global middleware, then the route's middleware and its main handler, or the
+    NotAllowed handlers (default when none are set) when other methods match, or the NotFound handlers -/
+def chainFor (env : HEnv σ ρ η (Gen.Ctx γ)) (s : σ) (route : Option ρ) (allowed : List Bytes) : List η :=
+  env.globalHandlers s ++
+    (if route.isSome then env.routeHandlers route ++ (env.routeHandler route).toList
+     else if decide ((allowed.length : Int) > 0) then orDefault (env.noAllowed s) env.default405
+     else orDefault (env.noRoute s) env.default404)
+
+/-- what `handleHTTPRequest` stores in the context before the chain runs -/
+def preludeCtx (env : HEnv σ ρ η (Gen.Ctx γ)) (ctx : Gen.Ctx γ) (path : Bytes) (route : Option ρ)
+    (params : Option KV) (allowed : List Bytes) : Gen.Ctx γ :=
+  if route.isSome then
+    { ctx with params := params, data := dataSet (dataSet ctx.data keyRouteName (.str (env.routeName route))) keyRoutePath (.str path) }
+  else if decide ((allowed.length : Int) > 0) then { ctx with data := dataSet ctx.data keyAllowed (.strs allowed) }
+  else ctx
+
+theorem choose_ctx (env : HEnv σ ρ η (Gen.Ctx γ)) (s : σ) (ctx : Gen.Ctx γ) (path : Bytes) (route : Option ρ)
+    (params : Option KV) (allowed : List Bytes) :
+    (choose env s ctx path route params allowed).1 = preludeCtx env ctx path route params allowed := by
+  unfold choose preludeCtx; tie_cases
+
+theorem choose_chain (env : HEnv σ ρ η (Gen.Ctx γ)) (s : σ) (ctx : Gen.Ctx γ) (path : Bytes) (route : Option ρ)
+    (params : Option KV) (allowed : List Bytes) :
+    env.globalHandlers s ++ (choose env s ctx path route params allowed).2.2
+        ++ (choose env s ctx path route params allowed).2.1.toList = chainFor env s route allowed := by
+  unfold choose chainFor; tie_cases
 
 end Tie
 end Rux
